@@ -15,7 +15,7 @@ log=$out/checks.log; : > $log
 echo "== fast tests with the refactoring" >> $log
 (cd $wt && PYTHONPATH=$wt timeout 900 /venv/bin/python -m pytest -q -p no:cacheprovider tests/test_selfies.py tests/test_selfies_utils.py tests/test_specific_cases.py 2>&1 | tail -2) >> $log
 mkdir -p /tmp/rf_ev_$label; cp /verif/evidence/*.json /tmp/rf_ev_$label/
-for p in C01 C02 C03 C04 C05 C06 C07 C08 C09 C10 C11 C12 C13 C14 C15 C16 C17 C18; do
+for p in ${CHECKS:-C01 C02 C03 C04 C05 C06 C07 C08 C09 C10 C11 C12 C13 C14 C15 C16 C17 C18}; do
   (cd /verif && VERIF_REPO=$wt timeout 2400 ./check $p --tier quick ${budget:+--budget $budget} > /tmp/rf_$label.$p.out 2>&1; echo "$p exit=$?" >> $log)
   grep -E "VIOLATION|sig=|HARNESS|RESULT" /tmp/rf_$label.$p.out | cut -c1-400 >> $log
   python3 - $p >> $log <<'PY'
